@@ -844,6 +844,24 @@ func callOps() []callOp {
 			s3, e3 := wkt.NewEncoder().Encode(a.g)
 			return dig(s1, s2, s3, errK(e1), errK(e2), errK(e3))
 		}},
+		// an encoder value that has a history of its own (a call that failed half way through a collection, a call that
+		// succeeded) against a new one: CallsTrace demands the same result for the pair (AloneOf)
+		{"wkt.Encoder.reused", func(a *callArg) string {
+			e := wkt.NewEncoder(wkt.EncodeOptionWithMaxDecimalDigits(3))
+			half := geom.NewGeometryCollection().MustPush(geom.NewPointFlat(geom.XY, []float64{1, 2}), geom.NewLineString(geom.NoLayout))
+			_, e0 := e.Encode(half)
+			_, _ = e.Encode(geom.NewPointFlat(geom.XYZ, []float64{7, 8, 9}))
+			_, e1 := e.Encode(half)
+			s, err := e.Encode(a.g)
+			if e0 == nil || e1 == nil {
+				panic("harness: the collection with a member without layout was encoded")
+			}
+			return dig(s, errK(err))
+		}},
+		{"wkt.Encoder.alone", func(a *callArg) string {
+			s, err := wkt.NewEncoder(wkt.EncodeOptionWithMaxDecimalDigits(3)).Encode(a.g)
+			return dig(s, errK(err))
+		}},
 		{"Bounds.queries", func(a *callArg) string {
 			b, b2 := a.bnd, a.bnd2
 			parts := []any{int(b.Layout()), b.IsEmpty(), b2.IsEmpty(), int(b2.Layout())}
@@ -1268,6 +1286,27 @@ func buildGeoms(r *rand.Rand) []namedGeom {
 		col = append(col, k, 2*k+1)
 	}
 	add("mpt70-collinear", geom.NewMultiPointFlat(geom.XY, col))
+	// the same in the other directions (for the hull's extreme-point reduction every direction class is a different case:
+	// the eight extreme points collapse to two in a different order), stored from the far end and shuffled; and a thin band
+	for _, d := range []struct {
+		id     string
+		dx, dy float64
+	}{{"steep-down", 1, -2}, {"vertical", 0, 1}, {"horizontal", 1, 0}, {"shallow-down", 2, -1}, {"diagonal-down", 1, -1}} {
+		var a, b []float64
+		for i := 0; i < 60; i++ {
+			k, j := float64(59-i), float64((i*37)%60)
+			a = append(a, 5+k*d.dx, 200+k*d.dy)
+			b = append(b, 5+j*d.dx, 200+j*d.dy)
+		}
+		add("ls60-line-"+d.id, geom.NewLineStringFlat(geom.XY, a))
+		add("mpt60-line-"+d.id, geom.NewMultiPointFlat(geom.XY, b))
+	}
+	band := make([]float64, 0, 120)
+	for i := 0; i < 60; i++ {
+		k := float64(59 - i)
+		band = append(band, 5+k+float64(i%3)/8, 200-2*k+float64(i%2)/8)
+	}
+	add("mpt60-thin-band", geom.NewMultiPointFlat(geom.XY, band))
 	mpg := geom.NewMultiPolygon(geom.XY)
 	_ = mpg.Push(geom.NewPolygonFlat(geom.XY, append([]float64{}, ring...), []int{len(ring)}))
 	_ = mpg.Push(geom.NewPolygon(geom.XY))
